@@ -384,6 +384,8 @@ PROPS["C04"] = {
          "checks": {"quick": 20000, "thorough": 300000}, "shards": {"quick": 2, "thorough": 8}},
         # feedback that reaches the runner through a reference server's stderr (terminated or not, before or after the answer)
         {"name": "C04Sideband", "pkg": CC, "test": "TestVerifC04Sideband", "kind": "enum"},
+        # the server under test is gone (status 0 or killed) after k of n cases: the rest counts against success whatever its marking
+        {"name": "C04ServerExit", "pkg": CC, "test": "TestVerifC04ServerExit", "kind": "enum"},
         {"name": "C04FateTable", "pkg": CC, "test": "TestVerifC04FateTable", "kind": "enum", "shards": {"quick": 4, "thorough": 4}, "timeout": 900},
         {"name": "C04Fate", "pkg": CC, "test": "TestVerifC04Fate", "kind": "rapid",
          "checks": {"quick": 12, "thorough": 150}, "shards": {"quick": 4, "thorough": 16}, "timeout": {"quick": 900, "thorough": 5400}},
